@@ -3,7 +3,11 @@
    network.TransferServer on a private unix socket; hooks conn.stop.seen / conn.transfer.read / conn.transfer.new /
    ds.new / ds.clean) against Handover.tla.  One run = one CASE line of Handover.tla.
    Events:
-     run{id, proto, phase, done, follow}
+     run{id, proto, phase, done, follow, bind, via, release}   release = wire: the upstream answers the first request in
+                                flight the moment the old instance ships the socket (inside hook conn.transfer.read), moved:
+                                after the move; bind = how the listener address is written in the configuration of both
+                                instances (ip4 127.0.0.1:p | any4 0.0.0.0:p | any6 [::]:p | ip6 [::1]:p), via = the client
+                                connects to 127.0.0.1:p (ip4) or [::1]:p (ip6)
      h.connect{ok}
      h.sent{k, n, total, cut}   client: n of the total bytes of request k are on the wire and have been read by the proxy;
                                 cut = 1 inside the fixed head, 2 inside the header block, 3 inside the body, 4 complete
@@ -14,7 +18,11 @@
      stop                       driver: StopConnection() on the old handler
      stopseen{transferable}     hook conn.stop.seen: the connection's read loop saw the stop channel
      transfer{buffered}         hook conn.transfer.read: the old instance ships the socket with `buffered` unread bytes
-     transfer.new{buffered}     hook conn.transfer.new: the new instance builds the connection around them
+     transfer.new{buffered}     hook conn.transfer.new: the new instance found the listener the socket belongs to (Lookup) and
+                                builds the connection around them
+     h.nomove{waited_ms}        driver: the old instance shipped the socket and the new instance has not taken it since
+                                (the old instance waits for the answer of the new one before it goes on: a Lookup that
+                                succeeds is seen within milliseconds)
      h.closed{byproxy}          client: after being told to go away the connection was (not) closed by the proxy
      h.close                    client closes
      oldexit                    driver: the old instance's life ends here (everything it still owns would die)
@@ -28,9 +36,9 @@ VARIABLES pending       \* bytes of a partly written request that the proxy has 
 
 tvars == <<vars, l, pending>>
 
-TraceInit == l = 1 /\ Init /\ proto = "bolt" /\ pending = 0
+TraceInit == l = 1 /\ Init /\ proto = "bolt" /\ bind = "ip4" /\ via = "ip4" /\ pending = 0
 
-K(vs) == UNCHANGED vs
+K(vs) == UNCHANGED <<vs, bind, via, orphan, release>>
 Decoded == Cardinality({r \in Reqs : stream[r] # "none"})
 ExpectedDecoder == IF proto = "bolt" /\ stop = "moved" THEN "new" ELSE "old"
 
@@ -39,6 +47,9 @@ TRun == /\ IsEvent("run")
         /\ k' = 1 /\ sent' = 0 /\ rbuf' = <<>> /\ stream' = [r \in Reqs |-> "none"] /\ by' = [r \in Reqs |-> "none"]
         /\ replies' = [r \in Reqs |-> 0] /\ told' = FALSE /\ repliedAfterNotice' = FALSE /\ lost' = FALSE /\ killed' = FALSE
         /\ fresh' = FALSE /\ pending' = 0 /\ route' = TRUE /\ order' = "fifo"
+        \* the combination is one the specification knows and the listener takes that client at all
+        /\ Ev.bind \in Binds /\ Ev.via \in Vias /\ Reaches(Ev.bind, Ev.via)
+        /\ bind' = Ev.bind /\ via' = Ev.via /\ orphan' = FALSE /\ release' = Ev.release
 
 TConnect == IsEvent("h.connect") /\ K(<<vars, pending>>)
 
@@ -82,12 +93,21 @@ TStopSeen == /\ IsEvent("stopseen") /\ stop' = "seen"
 TTransfer == /\ IsEvent("transfer")
              \* BytesIntact at the old instance: what it ships is exactly what it had read of the unfinished request
              /\ Expect(Ev.buffered = pending, "buffered-bytes-not-shipped")
-             /\ K(<<vars, pending>>)
+             /\ owner' = "wire"
+             /\ K(<<proto, stop, closeFlag, oldAlive, k, sent, rbuf, stream, by, replies, told, repliedAfterNotice, lost, killed, follow, fresh, route, order, pending>>)
 
+\* Lookup succeeded: the socket belongs to a listener of the new instance
 TTransferNew == /\ IsEvent("transfer.new")
                 /\ Expect(Ev.buffered = pending, "buffered-bytes-not-received")
                 /\ stop' = "moved" /\ owner' = "new"
                 /\ K(<<proto, closeFlag, oldAlive, k, sent, rbuf, stream, by, replies, told, repliedAfterNotice, lost, killed, follow, fresh, route, order, pending>>)
+
+\* Adopted: Lookup finds the listener for every way of writing its address and every client it takes (Found is the
+\* intended design's answer for this run's bind/via: it is TRUE for all of them)
+TNoMove == /\ IsEvent("h.nomove")
+           /\ Expect(~Found, "shipped-connection-not-taken-by-a-listener-of-the-new-process")
+           /\ orphan' = TRUE /\ owner' = "closed" /\ lost' = TRUE
+           /\ UNCHANGED <<proto, stop, closeFlag, oldAlive, k, sent, rbuf, stream, by, replies, told, repliedAfterNotice, killed, follow, fresh, route, order, pending, bind, via, release>>
 
 THClosed == /\ IsEvent("h.closed")
             /\ Expect(Ev.byproxy, "told-to-go-away-but-connection-left-open")
@@ -115,7 +135,7 @@ TAbandon == IsEvent("abandon") /\ K(<<vars, pending>>)
 \* OneReply: something arrived on the connection although no request was waiting for it (a second answer, an answer to nobody)
 TStray == IsEvent("h.stray") /\ Expect(FALSE, "reply-without-waiting-request") /\ K(<<vars, pending>>)
 
-TraceNext == TRun \/ TConnect \/ TSent \/ TNew \/ TClean \/ TReply \/ TStop \/ TStopSeen \/ TTransfer \/ TTransferNew
+TraceNext == TRun \/ TConnect \/ TSent \/ TNew \/ TClean \/ TReply \/ TStop \/ TStopSeen \/ TTransfer \/ TTransferNew \/ TNoMove
              \/ THClosed \/ THClose \/ TOldExit \/ TQuiesce \/ TAbandon \/ TStray
 TraceSpec == TraceInit /\ [][TraceNext]_tvars
 ====
